@@ -212,6 +212,87 @@ def written_targets(ck, rt_cases, rng, n):
                 {"entry_point": "_Relationships.xml (CT_Relationships.add_rel)", "input": [src, tgt], "impl_outcome": [target, str(back)]})
 
 
+def loaded_targets(ck, rt_cases, rng, npk):
+    """... and of the part names LOADED for the Target attributes of a package: in generated packages the same
+    relative reference text recurs in the relationship items of sources in different directories (as ../media/image1.png
+    does in real decks), so every reference must be resolved against the directory of ITS OWN source.  Expected target =
+    RFC 3986 resolution, computed here with posixpath on plain strings, independent of PackURI and of the loader."""
+    import io
+    import posixpath
+    import zipfile
+    from xml.sax.saxutils import quoteattr
+
+    from pptx.opc.package import OpcPackage
+
+    def ok_name(n):
+        segs = n.split("/")[1:]
+        return (n.startswith("/") and n != "/" and not n.endswith("/") and all(segs) and "_rels" not in segs
+                and "[Content_Types].xml" not in n and not any(sg in (".", "..") for sg in segs))
+
+    pool = [(s_, t_) for _k, s_, t_ in rt_cases if ok_name(s_) and ok_name(t_) and s_ != t_]
+    if not pool:
+        return
+    RT = "http://example.com/rt"
+    for _ in range(npk):
+        src0, tgt0 = rng.choice(pool)
+        ref = posixpath.relpath(tgt0, posixpath.dirname(src0))
+        fname = posixpath.basename(src0)
+        bases = [posixpath.dirname(src0)] + ["/" + "/".join(rng.choice(["a", "b", "ppt", "x1", "D.e"]) for _ in range(rng.randint(1, 3)))
+                                             for _ in range(rng.randint(1, 3))]
+        want = {}     # source name -> [(rId, reference, expected target name)]
+        names = set()
+        for b in dict.fromkeys(bases):
+            src = posixpath.join(b, fname)
+            tgt = posixpath.normpath(posixpath.join(b, ref))
+            if not ok_name(src) or not ok_name(tgt) or tgt.startswith("/..") or src in names:
+                continue
+            want[src] = [("rId1", ref, tgt)]
+            if rng.random() < 0.5:       # a second reference, root-absolute, to a part of another source
+                want[src].append(("rId2", tgt0, tgt0))
+            names |= {src, tgt, tgt0}
+        # no name may be both a part and a source's target twice over with different roles: sources are parts too
+        lower = [n.lower() for n in names]
+        if len(set(lower)) != len(lower) or len(want) < 2:
+            continue
+        members = {"[Content_Types].xml": '<?xml version="1.0" encoding="UTF-8" standalone="yes"?>\n<Types xmlns="http://schemas.openxmlformats.org/package/2006/content-types">'
+                   + "".join('<Override PartName=%s ContentType="application/xml"/>' % quoteattr(n) for n in sorted(names))
+                   + '<Default Extension="rels" ContentType="application/vnd.openxmlformats-package.relationships+xml"/></Types>'}
+
+        def rels_xml(rows):
+            return ('<?xml version="1.0" encoding="UTF-8" standalone="yes"?>\n<Relationships xmlns="http://schemas.openxmlformats.org/package/2006/relationships">'
+                    + "".join('<Relationship Id="%s" Type="%s" Target=%s/>' % (rid, RT, quoteattr(t)) for rid, t, _e in rows) + "</Relationships>")
+        members["_rels/.rels"] = rels_xml([("rId%d" % (i + 1), s_, s_) for i, s_ in enumerate(sorted(want))])
+        for n in names:
+            members[n[1:]] = "<r/>"
+        for s_, rows in want.items():
+            members[posixpath.join(posixpath.dirname(s_), "_rels", posixpath.basename(s_) + ".rels")[1:]] = rels_xml(rows)
+        buf = io.BytesIO()
+        with zipfile.ZipFile(buf, "w") as z:
+            for k, v in members.items():
+                z.writestr(k, v)
+        rec_in = {"members": members}
+        try:
+            pkg = OpcPackage.open(io.BytesIO(buf.getvalue()))
+            loaded = {str(p.partname): p for p in pkg.iter_parts()}
+        except Exception as e:  # noqa
+            ck.violation("loaded-target-raises", "opening a package whose relationship items repeat the reference %r in %d directories raised %s: %s"
+                         % (ref, len(want), type(e).__name__, str(e)[:160]),
+                         {"entry_point": "OpcPackage.open", "input": rec_in, "impl_outcome": type(e).__name__})
+            continue
+        for s_, rows in sorted(want.items()):
+            ck.count(("loaded", s_, ref), True, "loaded-target")
+            part = loaded.get(s_)
+            got = {} if part is None else {rid: (None if r.is_external else str(r.target_part.partname)) for rid, r in part.rels.items()}
+            for rid, t, exp in rows:
+                if got.get(rid) != exp:
+                    ck.violation("loaded-target", "the reference %r in the relationship item of %s was loaded as %s; it resolves from %s to %s (the same "
+                                 "reference text occurs in the items of %d sources in different directories)"
+                                 % (t, s_, got.get(rid, "<relationship absent>") if part is not None else "<source part not loaded>",
+                                    posixpath.dirname(s_), exp, len(want)),
+                                 {"entry_point": "OpcPackage.open (_PackageLoader)", "input": rec_in, "impl_outcome": got})
+                    break
+
+
 def run(ck, tier, rng):
     ck.build = coq_build("C19")
     cases = gen_cases(tier, rng)
@@ -220,6 +301,7 @@ def run(ck, tier, rng):
         ck.count(c, nontrivial(c), c[0])
         oracle(ck, c, o)
     written_targets(ck, [c for c in cases if c[0] == "rt"], rng, 1500 if tier == "quick" else 20000)
+    loaded_targets(ck, [c for c in cases if c[0] == "rt"], rng, 300 if tier == "quick" else 4000)
     for c in cases[:3] + cases[-400:-397] + [c for c in cases if c[0] == "frr"][:3]:
         ck.sample(list(c), limit=12)
     concrete_before = len(ck.violations)
